@@ -93,6 +93,13 @@ def messages():
             "ff1": b"\xff"}
 
 
+def message(mn, msgs=None):
+    """a named message of the value alphabet, or 'len:N' -> the first N octets of one seeded stream (length sweeps)"""
+    if mn.startswith("len:"):
+        return seeded("c04/msg-len", int(mn[4:]))
+    return (msgs or messages())[mn]
+
+
 def other_message(msg):
     return bytes(msg) + b"\x00" if len(msg) < 8 else bytes([msg[0] ^ 1]) + bytes(msg[1:])
 
